@@ -1167,6 +1167,9 @@ func shapeDiff(o, t reflect.Type, path string) string {
 		}
 		for i := 0; i < o.NumField(); i++ {
 			of := o.Field(i)
+			if of.PkgPath != "" {
+				continue // unexported: skipped by every mangler
+			}
 			tf, ok := t.FieldByName(of.Name)
 			if !ok {
 				return fmt.Sprintf("%s.%s: no counterpart in the translated type", path, of.Name)
